@@ -1,9 +1,12 @@
 (* C17 — property theorems only.  Each is closed by [exact] of a lemma from
    Proofs*.v and followed by Print Assumptions.
 
-   Vocabulary: [reach cfg ops] is the manager's state after the operations
-   [ops] (observation reports, IsClosed flips, disconnect notifications) from
-   the empty state; [cobs] is connObservedTWAddrs, [ext] is externalAddrs;
+   Vocabulary: [reach cfg0 ops] is the manager's state after the operations
+   [ops] (observation reports, IsClosed flips, disconnect notifications,
+   changes of the listen set and of ActivationThresh) from the empty state,
+   started in configuration cfg0; [cfg_after cfg0 ops] is the configuration
+   then current: the connection universe, cap and queried addresses of cfg0
+   with the listen set and threshold as last set; [cobs] is connObservedTWAddrs, [ext] is externalAddrs;
    [cred_of cfg (cobs st)] is connObservedTWAddrs with each connection's local
    thin waist written next to it; [nobs cfg cred l x] is the number of distinct
    observer groups (IPv4 address / IPv6 /56) of the connections vouching for
@@ -14,10 +17,12 @@ From Verif Require Import c17.Proofs_amap c17.Proofs_ext c17.Proofs_inv c17.Proo
 Import ListNotations.
 Local Open Scope Z_scope.
 
-(* THE property on traces: for every configuration (threshold, listen
-   addresses, connection universe, queried addresses) whose cap is the constant
-   read from /repo, and every finite history, the monitor of Spec.v — the one
-   that is run on the implementation's traces — accepts the model's trace. *)
+(* THE property on traces: for every configuration (initial threshold and
+   listen addresses, connection universe, queried addresses) whose cap is the
+   constant read from /repo, and every finite history — including histories
+   that change the listen set while connections stay open and that change
+   ActivationThresh after the manager exists — the monitor of Spec.v, the one
+   that is run on the implementation's traces, accepts the model's trace. *)
 Theorem c17_monitor_accepts_model : forall cfg ops, cap cfg = the_cap ->
   holds cfg (trace cfg init_state ops) = true.
 Proof. intros cfg ops H. apply holds_model. rewrite H, the_cap_three. apply le_n. Qed.
@@ -26,16 +31,18 @@ Print Assumptions c17_monitor_accepts_model.
 (* refinement: externalAddrs[l][x].ObservedBy[g] is the number of entries of
    connObservedTWAddrs vouching for x on l as observer g; no zero counts, no
    empty observer sets, no empty per-local maps *)
-Theorem c17_ext_is_multiset_of_connobs : forall cfg ops,
-  let st := reach cfg ops in
+Theorem c17_ext_is_multiset_of_connobs : forall cfg0 ops,
+  let cfg := cfg_after cfg0 ops in
+  let st := reach cfg0 ops in
   wf_ext (ext st) /\
   forall l x g, cnt (ext st) l x g = Z.of_nat (length (filter (credits cfg l x g) (cobs st))).
 Proof. exact ext_is_multiset_l. Qed.
 Print Assumptions c17_ext_is_multiset_of_connobs.
 
 (* a connection is credited with at most one observation *)
-Theorem c17_one_credit_per_conn : forall cfg ops,
-  let st := reach cfg ops in
+Theorem c17_one_credit_per_conn : forall cfg0 ops,
+  let cfg := cfg_after cfg0 ops in
+  let st := reach cfg0 ops in
   NoDup (keys (cobs st)) /\
   (forall c x, In (c, x) (cobs st) -> valid_conn cfg c /\ get Z.eqb c (cobs st) = Some x).
 Proof. exact one_credit_per_conn_l. Qed.
@@ -80,8 +87,9 @@ Print Assumptions c17_noncounting_report_adds_nothing.
 (* repeated reports from one observer group count once: len(ObservedBy) is the
    number of DISTINCT groups among the vouching connections, and two remotes
    have the same observer key iff they are the same IPv4 address / IPv6 /56 *)
-Theorem c17_repeated_group_counts_once : forall cfg ops l x,
-  let st := reach cfg ops in
+Theorem c17_repeated_group_counts_once : forall cfg0 ops l x,
+  let cfg := cfg_after cfg0 ops in
+  let st := reach cfg0 ops in
   length (oset (ext st) l x) = nobs cfg (cred_of cfg (cobs st)) l x.
 Proof. exact observed_by_is_distinct_groups_l. Qed.
 Print Assumptions c17_repeated_group_counts_once.
@@ -108,8 +116,9 @@ Print Assumptions c17_latest_report_counts.
 
 (* ... and a disconnect withdraws it: afterwards the connection is credited
    with nothing, is closed, and externalAddrs is the multiset of the others *)
-Theorem c17_remove_withdraws : forall cfg ops c,
-  let st := reach cfg ops in
+Theorem c17_remove_withdraws : forall cfg0 ops c,
+  let cfg := cfg_after cfg0 ops in
+  let st := reach cfg0 ops in
   let st' := step cfg st (Disconnect c) in
   get Z.eqb c (cobs st') = None /\
   zmem c (closed st') = true /\
@@ -132,8 +141,9 @@ Print Assumptions c17_close_during_observation_not_credited.
 (* AddrsFor: only addresses with at least [thresh] distinct observer groups;
    conversely (thresh >= 1) every such address is returned unless the answer
    is full and every returned address has at least as many observers *)
-Theorem c17_addrs_threshold : forall cfg ops l r,
-  let st := reach cfg ops in
+Theorem c17_addrs_threshold : forall cfg0 ops l r,
+  let cfg := cfg_after cfg0 ops in
+  let st := reach cfg0 ops in
   let n := nobs cfg (cred_of cfg (cobs st)) l in
   let xs := addrs_for cfg st (Some l, r) in
   (forall x, In x xs -> thresh cfg <= Z.of_nat (n x)) /\
@@ -142,10 +152,44 @@ Theorem c17_addrs_threshold : forall cfg ops l r,
 Proof. exact addrs_threshold_l. Qed.
 Print Assumptions c17_addrs_threshold.
 
+(* "the activation threshold" is the CURRENT value of the exported package
+   variable ActivationThresh: after it was set to n — at any point of the
+   history, also after the manager was constructed — every address returned has
+   at least n distinct observers; setting it changes nothing of the manager *)
+Theorem c17_threshold_is_current : forall cfg0 ops n l r x,
+  let cfg := cfg_after cfg0 (ops ++ [SetThresh n]) in
+  let st := reach cfg0 (ops ++ [SetThresh n]) in
+  In x (addrs_for cfg st (Some l, r)) ->
+  n <= Z.of_nat (nobs cfg (cred_of cfg (cobs st)) l x).
+Proof. exact threshold_is_current_l. Qed.
+Print Assumptions c17_threshold_is_current.
+
+Theorem c17_env_change_keeps_state : forall cfg0 ops o,
+  (exists ls, o = SetListen ls) \/ (exists n, o = SetThresh n) ->
+  reach cfg0 (ops ++ [o]) = reach cfg0 ops.
+Proof. exact env_op_keeps_state. Qed.
+Print Assumptions c17_env_change_keeps_state.
+
+(* reports on connections not arriving at a (current) listen address never
+   count — also for a connection that is already tracked: after the listen set
+   became ls (its listener closed, the connection still open), a re-report of
+   a connection whose local thin waist is not in ls is not credited and
+   withdraws the connection's earlier report *)
+Theorem c17_rereport_after_listener_closed : forall cfg0 ops ls c oa ci l,
+  let cfg := cfg_after cfg0 (ops ++ [SetListen ls]) in
+  let st := reach cfg0 (ops ++ [SetListen ls]) in
+  conn_info cfg c = Some ci -> c_local ci = Some l ->
+  existsb (fun la : laddr => match fst la with Some t => t =? tw_id l | None => false end) ls = false ->
+  let st' := step cfg st (Observe c oa) in
+  st' = remove_conn cfg st c /\ get Z.eqb c (cobs st') = None.
+Proof. exact rereport_after_listener_closed_l. Qed.
+Print Assumptions c17_rereport_after_listener_closed.
+
 (* at most three (the specification's number; the cap is the constant read
    from /repo), no duplicates, most-observed first *)
-Theorem c17_at_most_three_sorted : forall cfg ops la, cap cfg = the_cap ->
-  let st := reach cfg ops in
+Theorem c17_at_most_three_sorted : forall cfg0 ops la, cap cfg0 = the_cap ->
+  let cfg := cfg_after cfg0 ops in
+  let st := reach cfg0 ops in
   let xs := addrs_for cfg st la in
   (length xs <= 3)%nat /\ NoDup xs /\
   match fst la with
@@ -157,8 +201,9 @@ Print Assumptions c17_at_most_three_sorted.
 
 (* Addrs(0): every element is an observed thin waist above the threshold for
    a listen address whose rest it carries *)
-Theorem c17_addrs_all_sound : forall cfg ops x r,
-  let st := reach cfg ops in
+Theorem c17_addrs_all_sound : forall cfg0 ops x r,
+  let cfg := cfg_after cfg0 ops in
+  let st := reach cfg0 ops in
   In (x, r) (addrs_all cfg st) ->
   exists l, In (Some l, r) (listen cfg) /\
             thresh cfg <= Z.of_nat (nobs cfg (cred_of cfg (cobs st)) l x).
@@ -168,8 +213,9 @@ Print Assumptions c17_addrs_all_sound.
 (* Addrs(0), per local address: it is the concatenation, over the distinct
    listen addresses, of that address's AddrsFor answer joined with its rest (each
    at most three and sorted by c17_at_most_three_sorted) ... *)
-Theorem c17_addrs_all_per_local : forall cfg ops, cap cfg = the_cap ->
-  let st := reach cfg ops in
+Theorem c17_addrs_all_per_local : forall cfg0 ops, cap cfg0 = the_cap ->
+  let cfg := cfg_after cfg0 ops in
+  let st := reach cfg0 ops in
   addrs_all cfg st =
     flat_map (fun la : laddr => map (fun x => (x, snd la)) (addrs_for cfg st la))
              (dedup_laddr [] (listen cfg)) /\
@@ -202,9 +248,10 @@ Theorem c17_default_threshold_positive : 1 <= ActivationThresh.
 Proof. exact default_threshold_positive_l. Qed.
 Print Assumptions c17_default_threshold_positive.
 
-Theorem c17_host_truncation_is_identity : forall cfg ops la, cap cfg = the_cap ->
-  host_observed_for (Z.to_nat maxObservedAddrsPerListenAddr) cfg (reach cfg ops) la =
-  addrs_for cfg (reach cfg ops) la.
+Theorem c17_host_truncation_is_identity : forall cfg0 ops la, cap cfg0 = the_cap ->
+  let cfg := cfg_after cfg0 ops in
+  host_observed_for (Z.to_nat maxObservedAddrsPerListenAddr) cfg (reach cfg0 ops) la =
+  addrs_for cfg (reach cfg0 ops) la.
 Proof. exact host_truncation_l. Qed.
 Print Assumptions c17_host_truncation_is_identity.
 
@@ -264,6 +311,40 @@ Proof. vm_compute. reflexivity. Qed.
 Example monitor_rejects_stale_after_unusable_rereport :
   holds ex_cfg [(Observe 0 ex_obs, mkO [[]] [] false); (Observe 1 ex_obs, mkO [[5]] [(5, 0)] false);
                 (Observe 1 (mkObs true false false (Some (mkTW 9 4 6))), mkO [[5]] [(5, 0)] false)] = false.
+Proof. vm_compute. reflexivity. Qed.
+
+(* the listener of thin waist 0 is closed while conn 1 stays open; conn 1 then
+   re-reports another address: not at a listen address any more, so neither the
+   new nor (withdrawn) the old report of conn 1 counts *)
+Definition ex_obs7 : obsaddr := mkObs false false false (Some (mkTW 7 4 6)).
+Example ex_rereport_after_listener_closed :
+  trace (mkCfg 1 the_cap [(Some 0, 0)] [(Some 0, 0)] [mkConn (Some ex_tw) (R4 1); mkConn (Some ex_tw) (R4 2)]) init_state
+        [Observe 0 ex_obs; Observe 1 ex_obs; SetListen []; Observe 1 ex_obs7] =
+  [(Observe 0 ex_obs, mkO [[5]] [(5, 0)] false); (Observe 1 ex_obs, mkO [[5]] [(5, 0)] false);
+   (SetListen [], mkO [[5]] [] false); (Observe 1 ex_obs7, mkO [[5]] [] false)].
+Proof. vm_compute. reflexivity. Qed.
+
+(* ... and the monitor rejects an implementation that skips the listen-address
+   check for an already tracked connection and counts the re-report *)
+Example monitor_rejects_rereport_counted_after_listener_closed :
+  holds (mkCfg 1 the_cap [(Some 0, 0)] [(Some 0, 0)] [mkConn (Some ex_tw) (R4 1); mkConn (Some ex_tw) (R4 2)])
+        [(Observe 0 ex_obs, mkO [[5]] [(5, 0)] false); (Observe 1 ex_obs, mkO [[5]] [(5, 0)] false);
+         (SetListen [], mkO [[5]] [] false); (Observe 1 ex_obs7, mkO [[5; 7]] [] false)] = false.
+Proof. vm_compute. reflexivity. Qed.
+
+(* ActivationThresh raised from 2 to 3 after two groups activated the address:
+   it is no longer reported; lowered again, it is *)
+Example ex_threshold_raised_then_lowered :
+  trace ex_cfg init_state [Observe 0 ex_obs; Observe 1 ex_obs; SetThresh 3; SetThresh 2] =
+  [(Observe 0 ex_obs, mkO [[]] [] false); (Observe 1 ex_obs, mkO [[5]] [(5, 0)] false);
+   (SetThresh 3, mkO [[]] [] false); (SetThresh 2, mkO [[5]] [(5, 0)] false)].
+Proof. vm_compute. reflexivity. Qed.
+
+(* ... and the monitor rejects an implementation that keeps using the threshold
+   it read when it was constructed *)
+Example monitor_rejects_stale_threshold :
+  holds ex_cfg [(Observe 0 ex_obs, mkO [[]] [] false); (Observe 1 ex_obs, mkO [[5]] [(5, 0)] false);
+                (SetThresh 3, mkO [[5]] [(5, 0)] false)] = false.
 Proof. vm_compute. reflexivity. Qed.
 
 (* the monitor rejects: an address reported on the strength of one group twice *)
